@@ -30,8 +30,10 @@ type corpusEntry struct {
 	zoneDep  bool
 	parseErr string
 	tree     *formula.SourceCode
-	treeHash uint64
+	treeHash uint64 // full deep dump: must not change through evaluation or analysis
 	treeN    int
+	structH  uint64 // the same without node ids: must be equal for every parse of the text
+	structN  int
 	outcome  string
 	fields   string
 }
@@ -133,6 +135,7 @@ func buildCorpus(tier string) {
 		if src != nil {
 			e.tree = src
 			e.treeHash, e.treeN = deepHash(src)
+			e.structH, e.structN = structHash(src)
 		}
 		if e.parseErr == "" && src != nil {
 			e.outcome = evalFresh(src, e.Spec)
@@ -148,10 +151,10 @@ func buildCorpus(tier string) {
 		e := &corpus[i]
 		h.addString(e.Text)
 		h.addString(e.parseErr)
-		h.add(e.treeHash)
+		h.add(e.structH)
 		h.addString(e.outcome)
 		h.addString(e.fields)
-		corpusDigest = append(corpusDigest, "parse="+e.parseErr+" tree="+strconv.FormatUint(e.treeHash, 16)+" eval="+e.outcome+" fields="+e.fields)
+		corpusDigest = append(corpusDigest, "parse="+e.parseErr+" tree="+strconv.FormatUint(e.structH, 16)+" eval="+e.outcome+" fields="+e.fields)
 	}
 	permOff = false
 	time.Local = savedLocal
@@ -340,8 +343,8 @@ func runPurity(rc *RunCtx) {
 				ts.violation("parsing the same text twice gives the same result", "parse-differs/"+commonPrefix(pe, e.parseErr), "`"+e.Text+"`: now "+pe+" ; baseline "+e.parseErr)
 			}
 			if src != nil && e.tree != nil {
-				h, n := deepHash(src)
-				if h != e.treeHash || n != e.treeN {
+				h, n := structHash(src)
+				if h != e.structH || n != e.structN {
 					ts.violation("parsing the same text twice gives structurally identical trees", "tree-differs", "`"+e.Text+"`: deep dump of a second parse differs from the first")
 				}
 			}
